@@ -117,8 +117,37 @@ func c13SP(c c13Case) (*saml2.SAMLServiceProvider, string) {
 }
 
 func c13Exec(c c13Case) (keys []string, detail, class string) {
-	k := c13AllKeys()[c.Keys]
 	sp, expectedKey := c13SP(c)
+	keys, detail, class = c13ExecOn(sp, expectedKey, c)
+	if len(keys) == 0 {
+		// a second message of another kind from the SAME instance (the signing context is now
+		// cached) must verify under the same configuration
+		c2 := c
+		kinds := []string{"AuthnRequest", "LogoutRequest", "LogoutResponse"}
+		for i, kd := range kinds {
+			if kd == c.Kind {
+				c2.Kind = kinds[(i+1)%3]
+			}
+		}
+		if c2.Kind == "AuthnRequest" && !sp.SignAuthnRequests {
+			c2.Kind = "LogoutResponse"
+		}
+		k2, d2, _ := c13ExecOn(sp, expectedKey, c2)
+		var bad []string
+		for _, k := range k2 {
+			if known := strings.Contains(k, "conforming-parser") || strings.Contains(k, "prefix-list") || strings.Contains(k, "carriage-return"); !known {
+				bad = append(bad, strings.Replace(k, "C13/", "C13/second-message-on-same-instance/", 1))
+			}
+		}
+		if len(bad) > 0 {
+			return bad, detail + " | second message on the same instance: " + d2, "DIFFERS"
+		}
+	}
+	return keys, detail, class
+}
+
+func c13ExecOn(sp *saml2.SAMLServiceProvider, expectedKey string, c c13Case) (keys []string, detail, class string) {
+	k := c13AllKeys()[c.Keys]
 	cc := c15Case{Kind: c.Kind, Signed: true, Str: c.Str, RAC: 2}
 	var out string
 	var err error
